@@ -79,6 +79,11 @@ def scenario(rng, n_sleepers, horizon):
                 if cfg.ConfigChange is None:
                     continue
                 mode = rng.choice(["active", "idle"])
+                if rng.random() < 0.25:
+                    # whatever the settings held before (an application that tuned one of them, another component):
+                    # a switch installs the COMPLETE table
+                    for m_ in rng.sample(members, rng.randrange(1, len(members) + 1)):
+                        setattr(cfg.GeckoConfig, m_, -7)
                 cfg.set_config_mode(mode == "active")
                 ev.append({"k": "switch", "mode": mode, "t": _ms(loop.time()),
                            "table": {m: getattr(cfg.GeckoConfig, m) for m in members},
@@ -248,6 +253,25 @@ def update_cycle_records(rng):
                 on.append({"cls": d.device_class, "type": a.type, "raw": int(a.raw_value), "label": v if isinstance(v, str) else ""})
             recs.append({"on": on, "mode": mode})
             meta.append(f"update-cycle:{'on' if want_on else 'off'}-during-poll")
+    # the facade is built for a spa in which a pump is ALREADY running (no device change will ever be reported): its
+    # first update cycle selects the active table; a later connection to a spa with everything off selects idle again
+    for snap, label in ((env.REPO + "/tests/snapshots/inXM-Pump 1 running-2020-12-08 19_54_01.snapshot", "pump-already-running"),
+                        (env.REPO + "/tests/snapshots/default.snapshot", "everything-off-after-an-active-connection")):
+        with AsyncSession(snapshot=snap, rank="stable") as s:
+            if not s.wait_connected(90, need_update=True):
+                raise env.MachineryError("update-cycle scenario: no connection (" + label + ")")
+            s.advance(2.0)
+            f = s.facade
+            cands = f.pumps + f.blowers
+            live = {m: getattr(cfg.GeckoConfig, m) for m in members}
+            mode = "active" if live == act else "idle" if live == idl else "mixed"
+            on = []
+            for d in cands:
+                a = d._state_sensor.accessor
+                v = a.value
+                on.append({"cls": d.device_class, "type": a.type, "raw": int(a.raw_value), "label": v if isinstance(v, str) else ""})
+            recs.append({"on": on, "mode": mode})
+            meta.append("first-update-cycle:" + label)
     return recs, meta
 
 
